@@ -102,7 +102,7 @@ func roundTripGo(c *run.C, t reflect.Type, v reflect.Value, path string) (recon 
 		if c.R.Bool() {
 			err = cd.Parse(w.Buf, u)
 		} else {
-			_, err = cd.ParseReader(&mon.ChunkReader{Data: w.Buf, Sizes: []int{c.R.Range(1, 9), c.R.Range(1, 40)}}, u)
+			_, err = cd.ParseReader(&mon.ChunkReader{Data: w.Buf, Sizes: []int{c.R.Range(1, 9), c.R.Range(1, 40)}, EOFWithData: c.R.Bool()}, u)
 		}
 	}
 	if !c.Guard("roundtrip."+path, run1) {
